@@ -23,6 +23,7 @@ import (
 	"runtime/debug"
 	"runtime/pprof"
 	"sort"
+	"strconv"
 	"strings"
 	"sync"
 	"sync/atomic"
@@ -73,8 +74,9 @@ func checkOne(in input, seed uint64, tmpDir string, forceFiles bool, timeout tim
 		// a parsing entry point that does not return is the property's "hang"; the
 		// later phases get kinds of their own (evaluation may legitimately be slow:
 		// go-cty renders 1e-999999 as a million digits in quadratic time)
+		st := *stage.Load()
 		kind := "hang"
-		if st := *stage.Load(); strings.Contains(st, " / ") {
+		if strings.Contains(st, " / ") {
 			kind = "eval-hang"
 			for _, w := range []string{"JustAttributes", "Content", "MissingItemRange"} {
 				if strings.Contains(st, w) {
@@ -83,19 +85,22 @@ func checkOne(in input, seed uint64, tmpDir string, forceFiles bool, timeout tim
 			}
 		}
 		return &result{hist: map[string]int{kind: 1}, checks: 1,
-			fails: []hv.Failure{{Kind: kind, Detail: fmt.Sprintf("%s: no result after %s", *stage.Load(), timeout), Input: in.src, Extra: map[string]string{"entry": *stage.Load(), "stream": in.stream}}}}
+			fails: []hv.Failure{{Kind: kind, Detail: fmt.Sprintf("%s: no result after %s", st, timeout), Input: in.src, Extra: map[string]string{"entry": st, "stream": in.stream}}}}
 	}
 }
 
 func runC15(cfg *hv.RunCfg) error {
 	rep := hv.NewReport("C15", cfg.Seed)
-	rep.Rule = "every input byte string goes through every parsing entry point (hclsyntax Lex*/ParseConfig/ParseExpression/ParseTemplate/ParseTraversalAbs/ParseTraversalPartial, json Parse/ParseWithStartPos/ParseExpression/ParseExpressionWithStartPos, hclwrite ParseConfig/Format, hclparse.Parser ParseHCL/ParseJSON and, for a sample, the *File variants), each called twice on separate copies under recover() with a time budget, a random start position for a fifth of the inputs; then Content/PartialContent/JustAttributes with generated schemas (names from the input plus fresh ones; recursively into child blocks), Variables/Value in generated scopes (unknown, marked, null values; nil context; nil maps; child frames) and hcl.AbsTraversalForExpr/RelTraversalForExpr/ExprList/ExprMap/ExprCall. Inputs: hand corpus (recovery paths of both parsers, each native entry also wrapped as attribute value / block content / interpolation / JSON template); exhaustive byte strings of length <= 2 (thorough: 3) over a 45-byte alphabet; then -n generated inputs: 22% valid native configs/expressions/templates/heredocs/traversals (hv.GenConfig, hv.GenExprText, hv.EvalGen, cparse's template generators), 32% mutations of those (bit flips, deletions, truncation at token boundaries, unbalanced/duplicated brackets-quotes-heredoc markers-template sequences, NUL / invalid UTF-8 / BOM / lone CR / U+2028 / U+0085 insertions, long tokens), 8% valid JSON (objects, array roots, expressions; template strings, duplicate keys, \"//\" keys), 17% mutated JSON, 6% random bytes, 11% token soup, 2% nesting 1..3000 levels deep of 18 constructs (closed, unclosed, unopened), 2% single long tokens; finally stack probes (100000-fold nesting, parsed in a child process so that a fatal stack overflow is observed instead of suffered; quick: 1, thorough: 7). evaluations = (input, entry point or body/expression analysed) pairs; non-trivial = some entry point reported an error diagnostic; distinct by SHA-256 of the input"
+	rep.Rule = "every input byte string goes through every parsing entry point (hclsyntax Lex*/ParseConfig/ParseExpression/ParseTemplate/ParseTraversalAbs/ParseTraversalPartial, json Parse/ParseWithStartPos/ParseExpression/ParseExpressionWithStartPos, hclwrite ParseConfig/Format, hclparse.Parser ParseHCL/ParseJSON and, for a sample, the *File variants), each called twice on separate copies under recover() with a time budget, a random start position for a fifth of the inputs; then Content/PartialContent/JustAttributes with generated schemas (names from the input plus fresh ones; recursively into child blocks), Variables/Value in generated scopes (unknown, marked, null values; nil context; nil maps; child frames) and hcl.AbsTraversalForExpr/RelTraversalForExpr/ExprList/ExprMap/ExprCall. Inputs: hand corpus (recovery paths of both parsers, each native entry also wrapped as attribute value / block content / interpolation / JSON template); exhaustive byte strings of length <= 2 (thorough: 3) over a 45-byte alphabet; then -n generated inputs: 22% valid native configs/expressions/templates/heredocs/traversals (hv.GenConfig, hv.GenExprText, hv.EvalGen, cparse's template generators), 32% mutations of those (bit flips, deletions, truncation at token boundaries, unbalanced/duplicated brackets-quotes-heredoc markers-template sequences, NUL / invalid UTF-8 / BOM / lone CR / U+2028 / U+0085 insertions, long tokens), 8% valid JSON (objects, array roots, expressions; template strings, duplicate keys, \"//\" keys), 17% mutated JSON, 6% random bytes, 11% token soup, 2% nesting 1..3000 levels deep of 18 constructs (closed, unclosed, unopened), 2% single long tokens; finally stack probes (100000-fold nesting, parsed in a child process so that a fatal stack overflow is observed instead of suffered; quick: 1, thorough: 4). evaluations = (input, entry point or body/expression analysed) pairs; non-trivial = some entry point reported an error diagnostic; distinct by SHA-256 of the input"
 
 	if ch := os.Getenv("C15_CHILD"); strings.HasPrefix(ch, "probe:") {
 		return runProbeChild(cfg, strings.TrimPrefix(ch, "probe:"))
 	}
 	timeout := 120 * time.Second
-	debug.SetGCPercent(400) // the structural dumps are short-lived garbage; memory is not scarce
+	if ms, err := strconv.Atoi(os.Getenv("C15_TIMEOUT_MS")); err == nil && ms > 0 { // testing aid for the hang path
+		timeout = time.Duration(ms) * time.Millisecond
+	}
+	debug.SetGCPercent(400)                    // the structural dumps are short-lived garbage; memory is not scarce
 	if pf := os.Getenv("C15_PROF"); pf != "" { // debugging aid: CPU profile of the run
 		if f, err := os.Create(pf); err == nil {
 			pprof.StartCPUProfile(f)
